@@ -42,6 +42,24 @@ DEFINES = ["v s", "v n; w string:W", "global g s", "v lst", "v missing | string:
            "v string:L; global gl string:after ${v}", "global ga n; global gb ga; v gb", "v n; w v; global gw w", "global gx string:1; global gx string:2; v gx"]
 
 
+# templates that once separated a seeded defect from the real thing: they always run first
+FIXED = [
+    [("elem", "ul", [], {}, [("elem", "li", [], {"repeat": "x mixed", "content": "x/name | default"}, [("text", "(unnamed)")])])],
+    [("elem", "ul", [], {}, [("elem", "li", [], {"repeat": "x mixed", "replace": "x/name | nothing"}, [("text", "gone")])])],
+    [("elem", "ul", [], {}, [("elem", "li", [("class", "row")], {"repeat": "x lst", "attributes": "title attrs/class"},
+                              [("elem", "b", [("class", "name")], {"content": "x"}, [("text", "n")])])])],
+    [("elem", "ul", [], {}, [("elem", "li", [("class", "row"), ("id", "r1")], {"repeat": "x people", "omit-tag": "attrs/nosuch | nothing", "attributes": "alt attrs/id"},
+                              [("elem", "i", [("class", "inner")], {"define": "v x/name", "content": "v"}, [])])])],
+    [("elem", "div", [], {"define": "global gg string:G; v string:uses ${gg}"}, [("elem", "b", [], {"content": "v"}, [("text", "x")])])],
+    [("elem", "div", [], {"define": "v string:L; global gl string:after ${v}"}, [("elem", "b", [], {"content": "gl"}, [("text", "x")])]),
+     ("elem", "p", [], {"content": "gl | string:unset"}, [])],
+    [("elem", "p", [], {"content": " python: 'PYTHON-ORACLE'"}, [("text", "t")]), ("elem", "p", [], {"define": "v  python: 'PYTHON-ORACLE'", "content": "v"}, [])],
+    [("elem", "p", [], {"content": "string:t=${missing/title | title}; ${not:z} $n|z"}, [])],
+    [("elem", "div", [], {"define": "a string:x; global g string:y"}, [("text", "in")]), ("elem", "i", [], {"content": "a | string:UNSET"}, [])],
+    [("elem", "span", [], {"define": "msg string:x; extra missing", "condition": "extra"}, [("text", "hidden")]), ("elem", "i", [], {"content": "msg | string:nobody"}, [])],
+]
+
+
 def gen_define_use(rnd):
     """an element that defines names and children / a following sibling that read every one of them: what a definition
     binds, in which order, and how long it lives, is visible in the output"""
